@@ -16,22 +16,26 @@
    Operations: <<"rt", who, channel, 0>> (export + load)  <<"add", who, key, amount>>  <<"rem", who, key, amount>> (counting only; only legitimate
    removals are generated: amount <= outstanding count, or the key is reported absent)  <<"clear", who>>
    <<"uni", who>> / <<"int", who>>: the union / intersection of (A, B) is ADOPTED as filter `who`, so that results of the binary
-   operations become operands and receivers of later operations. The library sets the counter of such a result to an
-   estimate (a float formula, not modelled): `nest` marks it, n then counts from 0 and the harness adds the observed base.
+   operations become operands and receivers of later operations. The library sets the counter of such a result to the
+   documented estimate of distinct elements, int(-(M/K) ln(1 - X/M)) for X set cells: TLC has no logarithm, so the M+1 values are
+   the constant EstTab (EstTab[X + 1]; produced by the engine with 50-digit arithmetic; -1 = "cannot estimate", every cell set);
+   `nest` marks a counter that started as an estimate (its documented meaning is then not the number of calls).
+   Removals are legitimate on such a result too (it owes every key its operands owed); the counter is pinned at 0 there.
    Saturation (C16): a cell is pinned at CellMax, the counter at TotMax; a counting cell that reached
    CellMax is never decremented again.                                                               *)
 EXTENDS Integers, Sequences, FiniteSets, TLC, Json
 
-CONSTANTS Keys, M, K, Tables, Counting, CellMax, TotMax, Amts, MaxN, MaxDepth, Whos, Channels, MaxReloads, MaxAdopt, Queries
+CONSTANTS Keys, M, K, Tables, Counting, CellMax, TotMax, Amts, MaxN, MaxDepth, Whos, Channels, MaxReloads, MaxAdopt, Queries, EstTab
 
 VARIABLES pos, fs, hist, last
 vars == <<pos, fs, hist, last>>
 
 Mn(a, b) == IF a < b THEN a ELSE b
+Mx0(a) == IF a < 0 THEN 0 ELSE a
 P(k, i) == (pos[k][i] % M) + 1            \* 1-based cell index of the i-th position of key k
 
 EmptyF == [cells |-> [p \in 1..M |-> 0], n |-> 0, out |-> [k \in Keys |-> 0], sat |-> FALSE, rl |-> 0, nest |-> FALSE, ad |-> 0]
-   \* nest: the counter is (estimate at adoption) + n;  ad: number of adoptions (bounded, like rl)
+   \* nest: the counter started as the estimate of an adopted result;  ad: number of adoptions (bounded, like rl)
    \* sat (history oracle): some cell or the counter has been clamped since the last clear
    \* rl: number of export+load round trips the object went through (part of the state, so histories continue on the restored object)
 
@@ -65,8 +69,9 @@ RemF(f, k, amt) ==
   IF mv = CellMax THEN [f |-> f, ret |-> CellMax]          \* saturated: never decremented again
   ELSE IF mv = 0 THEN [f |-> f, ret |-> 0]                   \* reported absent: nothing changes
   ELSE LET t == Mn(amt, mv) IN
-       [f |-> [cells |-> SubCells(f.cells, k, t, 1), n |-> f.n - t,
-               out |-> [f.out EXCEPT ![k] = IF @ >= t THEN @ - t ELSE 0], sat |-> f.sat, rl |-> f.rl, nest |-> f.nest, ad |-> f.ad],
+       [f |-> [cells |-> SubCells(f.cells, k, t, 1), n |-> Mx0(f.n - t),      \* the counter never goes below its lower limit 0 (possible only
+               out |-> [f.out EXCEPT ![k] = IF @ >= t THEN @ - t ELSE 0],       \* when it started as an estimate: an estimate counts distinct keys)
+               sat |-> f.sat \/ f.n - t < 0, rl |-> f.rl, nest |-> f.nest, ad |-> f.ad],
         ret |-> mv - t]
 
 -----------------------------------------------------------------------------
@@ -82,7 +87,7 @@ SetBits(f) == Cardinality({p \in 1..M : f.cells[p] > 0})
 (* the result of a binary operation taken as a filter: every key owed by an operand (union) / by both (intersection) is owed by it *)
 Adopted(a, b, old, op) ==
   LET cells == IF op = "uni" THEN UnionCells(a, b) ELSE InterCells(a, b) IN
-  [cells |-> cells, n |-> 0,
+  [cells |-> cells, n |-> EstTab[Cardinality({p \in 1..M : cells[p] > 0}) + 1],
    out |-> [k \in Keys |-> IF op = "uni" THEN a.out[k] + b.out[k] ELSE IF a.out[k] > 0 /\ b.out[k] > 0 THEN a.out[k] + b.out[k] ELSE 0],
    sat |-> a.sat \/ b.sat \/ (Counting /\ \E p \in 1..M : cells[p] >= CellMax), rl |-> old.rl, nest |-> TRUE, ad |-> old.ad + 1]
 
@@ -103,7 +108,7 @@ Init == /\ pos \in Tables
 
 Do(o) == LET w == o[2]  f == fs[w] IN
          /\ CASE o[1] = "add" -> LET r == AddF(f, o[3], o[4]) IN fs' = [fs EXCEPT ![w] = r.f] /\ last' = [o |-> o, ret |-> r.ret]
-              [] o[1] = "rem" -> /\ LegitRem(f, o[3], o[4]) /\ ~f.nest      \* amounts were never added to an adopted result: no removal there
+              [] o[1] = "rem" -> /\ LegitRem(f, o[3], o[4])      \* also on an adopted result: it owes what its operands owed
                                  /\ LET r == RemF(f, o[3], o[4]) IN fs' = [fs EXCEPT ![w] = r.f] /\ last' = [o |-> o, ret |-> r.ret]
               [] o[1] = "clear" -> fs' = [fs EXCEPT ![w] = [EmptyF EXCEPT !.rl = f.rl, !.ad = f.ad]] /\ last' = [o |-> o, ret |-> -1]
               [] o[1] \in {"chk", "est"} -> fs' = fs /\ last' = [o |-> o, ret |-> -1]
@@ -123,7 +128,7 @@ Bound == Len(hist) <= MaxDepth /\ \A w \in {"A", "B"} : \A k \in Keys : fs[w].ou
 -----------------------------------------------------------------------------
 (* properties *)
 TypeOK == \A w \in {"A", "B"} : /\ \A p \in 1..M : fs[w].cells[p] \in 0..CellMax
-                                /\ fs[w].n \in 0..TotMax
+                                /\ fs[w].n <= TotMax /\ fs[w].n >= (IF fs[w].nest THEN -1 ELSE 0)     \* -1: the documented "cannot estimate" value
 NoFalseNegative ==                                   \* C01 / C08: never below the outstanding count
   \A w \in {"A", "B"} : \A k \in Keys :
      fs[w].out[k] > 0 => (IF Counting THEN Est(fs[w], k) >= Mn(fs[w].out[k], CellMax) ELSE Est(fs[w], k) = 1)
@@ -147,7 +152,7 @@ Monotone == [][ \A w \in {"A", "B"} : (last'.o[1] \in {"add", "uni"} /\ last'.o[
 RemoveUndoesAdd ==                                   \* C08: below the limit, remove(k,a) after add(k,a) restores cells and n
   Counting => \A w \in {"A", "B"} : \A k \in Keys : \A a \in Amts :
      LET f == fs[w]  r == AddF(f, k, a) IN
-     ((\A p \in 1..M : r.f.cells[p] < CellMax) /\ r.f.n < TotMax) =>
+     ((\A p \in 1..M : r.f.cells[p] < CellMax) /\ r.f.n < TotMax /\ f.n >= 0) =>       \* f.n = -1: the "cannot estimate" value of a result
         LET u == RemF(r.f, k, a) IN u.f.cells = f.cells /\ u.f.n = f.n
 SaturatedStays == [][ Counting => \A w \in {"A", "B"} : \A p \in 1..M :
                         (fs[w].cells[p] = CellMax /\ last'.o[1] \notin {"clear", "int"}) => fs'[w].cells[p] = CellMax ]_vars   \* C16
